@@ -2,6 +2,7 @@
 package carrier
 
 import (
+	"strconv"
 	"net/url"
 	"reflect"
 	"strings"
@@ -36,9 +37,11 @@ const (
 	MapLarge Kind = "map-25-entries"
 	// StructRMAfterPlain: the untagged type is validated without rules first, then with the per-call rule.
 	StructRMAfterPlain Kind = "struct-rm-after-plain-call"
+	// UrlMany: strings only; the parameter is the 151st of 200 (percent-encoded value).
+	UrlMany Kind = "url-parameter-151-of-200"
 )
 
-var All = []Kind{StructTag, StructRM, Var, Map, MapIface, SliceMap, Url, UrlEsc, StructTagHist, StructTagOtherTag, StructTagLocalFn, VarLocalFn, StructTagWide, MapLarge, StructRMAfterPlain}
+var All = []Kind{StructTag, StructRM, Var, Map, MapIface, SliceMap, Url, UrlEsc, StructTagHist, StructTagOtherTag, StructTagLocalFn, VarLocalFn, StructTagWide, MapLarge, StructRMAfterPlain, UrlMany}
 
 // Box is the named carrier type for per-call rules.
 type Box[T any] struct{ F T }
@@ -56,7 +59,7 @@ func PathPrefix(k Kind, v reflect.Value) string {
 		return "map[k]"
 	case SliceMap:
 		return "[0]map[k]"
-	case Url, UrlEsc:
+	case Url, UrlEsc, UrlMany:
 		return "k"
 	}
 	return ""
@@ -208,7 +211,7 @@ func Supports(k Kind, v reflect.Value) bool {
 	switch k {
 	case Url:
 		return v.Kind() == reflect.String && !strings.ContainsAny(v.String(), "&=?#%+") && !hasCtl(v.String())
-	case UrlEsc:
+	case UrlEsc, UrlMany:
 		return v.Kind() == reflect.String && !strings.ContainsAny(v.String(), "&=?#")
 	case StructRM:
 		return boxOf(v) != nil
@@ -250,6 +253,16 @@ func Validate(k Kind, v reflect.Value, rules string) (string, bool) {
 		p := reflect.New(st)
 		p.Elem().Field(0).Set(v)
 		err = valid.Struct(p.Interface())
+	case UrlMany:
+		var q []string
+		for i := 0; i < 200; i++ {
+			if i == 150 {
+				q = append(q, "k="+url.QueryEscape(v.String()))
+			} else {
+				q = append(q, "p"+strconv.Itoa(i)+"=v"+strconv.Itoa(i))
+			}
+		}
+		err = valid.Url("http://h/p?"+strings.Join(q, "&"), valid.RM{"k": rules, "p199": "required", "p127": "required", "p128": "to=1~9"})
 	case StructTagWide:
 		st := TagTypeWide(v.Type(), rules)
 		p := reflect.New(st)
